@@ -20,6 +20,7 @@ type c11Gen struct {
 	// feature switches for classes that are recorded findings
 	allowOperatorCallArgs bool
 	allowEmptyIf          bool
+	noHuge                bool // no packages beyond 1 MiB (C12 keeps inputs small)
 	allowTermsAfterBlock  bool // inside deferred (While) blocks
 }
 
@@ -75,7 +76,7 @@ func (g *c11Gen) data(depth int) *amlData {
 	case "buffer":
 		n := rapid.IntRange(0, 10).Draw(g.t, "blen")
 		d.S = rapid.SliceOfN(rapid.Byte(), n, n).Draw(g.t, "bbytes")
-		if depth == 0 && rapid.IntRange(0, 150).Draw(g.t, "hugebuf") == 0 {
+		if depth == 0 && !g.noHuge && rapid.IntRange(0, 150).Draw(g.t, "hugebuf") == 0 {
 			// a package longer than 2^20 bytes: needs all four PkgLength bytes
 			d.S = []byte{byte(rapid.IntRange(1, 255).Draw(g.t, "fill")), 0x5a}
 			d.Rep = 1<<19 + rapid.IntRange(0, 40).Draw(g.t, "hugerep")
